@@ -6,7 +6,10 @@ B3: TLC checks the specification's own consistency on the boundary grid (the two
 B2: the real unix_nano_to_pv_string / convert_timestamp_to_unix_nano are called (in a child process on /repo's tree)
     on the whole boundary grid and on seeded microsecond-precision instants in 1970..2100; every observed
     (argument, result) pair, every PV -> ns -> PV round trip and every ordered pair is validated by TLC against
-    the operators NsToPv / PvToNs / PvLess."""
+    the operators NsToPv / PvToNs / PvLess.  Nanosecond-precision instants (every grid instant with the sub-microsecond
+    parts 1, 499, 500, 501, 999 ns, random ones, random ones in the last microsecond of a second) must be converted to
+    the truncated or the next microsecond (NsToPv / NsToPvUp, carry into second and day checked by CarryOk), and pairs
+    of them 1 ns, 500 ns and 1000 ns apart must never come out in reversed order."""
 import datetime
 import random
 import re
@@ -19,6 +22,7 @@ GRID_DAYS = [0, 1, 30, 31, 58, 59, 89, 364, 365, 366, 424, 425, 730, 789, 790, 1
              11017, 11322, 24855, 24856, 47481, 47482, 47540, 47541, 47542, 47846, 47847]
 GRID_SECS = [0, 1, 59, 60, 3599, 3600, 43199, 43200, 86399]
 GRID_US = [0, 1, 499999, 500000, 999999]
+GRID_NS = [1, 499, 500, 501, 999]
 PV_RE = re.compile(r"^(\d{4})-(\d{2})-(\d{2})T(\d{2}):(\d{2}):(\d{2})\.(\d{6})Z$")
 MAX_DAY = 47846      # 2100-12-31
 
@@ -60,12 +64,15 @@ def instants(tier, seed):
     grid = [join(d, s, u) for d in GRID_DAYS for s in GRID_SECS for u in GRID_US]
     n = 20000 if tier == "quick" else 300000
     rand = [join(rnd.randrange(0, MAX_DAY + 1), rnd.randrange(86400), rnd.randrange(10 ** 6)) for _ in range(n)]
-    subus = [x + rnd.randrange(1, 1000) for x in rand[:200]]       # exercised, not judged (ns # 0)
+    # OTel times are nanoseconds: instants with a sub-microsecond part - every grid instant with the sub-microsecond
+    # values around the rounding point, random ones, and random ones in the last microsecond of a second
+    subus = [x + n for x in grid for n in GRID_NS] + [x + rnd.randrange(1, 1000) for x in rand[:2000]] + \
+            [join(rnd.randrange(0, MAX_DAY + 1), rnd.randrange(86400), 999999, rnd.randrange(1, 1000)) for _ in range(1000)]
     return grid, rand, subus
 
 
 def run(chk, tier, seed):
-    cfg = "INIT Init\nNEXT Next\nINVARIANT RoundTripNs\nINVARIANT RoundTripPv\nINVARIANT Monotone\nINVARIANT NextDay\n"
+    cfg = "INIT Init\nNEXT Next\nINVARIANT RoundTripNs\nINVARIANT RoundTripPv\nINVARIANT Monotone\nINVARIANT NextDay\nINVARIANT CarryOk\n"
     self_r = tlc.run_tlc("PvTime", cfg, {"PvData": tlc.data_module("PvData", {"Obs": "<<>>"}, extends="Integers, Sequences")},
                          modules=["PvTime"], workers=8, jvm="throughput")
     for v in self_r.violated:
@@ -78,10 +85,14 @@ def run(chk, tier, seed):
         dt = datetime.datetime(1970, 1, 1) + datetime.timedelta(microseconds=x // 1000)
         strings.append(dt.strftime("%Y-%m-%dT%H:%M:%S.%fZ"))
     pairs = [(x, x + 1000) for x in grid + rand[:2000]] + [tuple(sorted((rand[2 * k], rand[2 * k + 1]))) for k in range(1000)]
+    # nanosecond instants: pairs one nanosecond, half a microsecond and one microsecond apart (the order may collapse,
+    # it must never reverse), in particular across the end of a second
+    wpairs = [(x, x + dlt) for x in subus for dlt in (1, 500, 1000)]
     cases = [{"cid": "n2p", "op": "time_n2p", "xs": xs, "timeout": 600},
              {"cid": "p2n", "op": "time_p2n", "ps": strings, "timeout": 600},
-             {"cid": "ord", "op": "time_n2p", "xs": [v for pr in pairs for v in pr], "timeout": 600}]
-    res = learner.run_cases(cases, parallel=3)
+             {"cid": "ord", "op": "time_n2p", "xs": [v for pr in pairs for v in pr], "timeout": 600},
+             {"cid": "ordw", "op": "time_n2p", "xs": [v for pr in wpairs for v in pr], "timeout": 600}]
+    res = learner.run_cases(cases, parallel=4)
     for c in cases:
         if not res[c["cid"]].get("ok"):
             raise RuntimeError("converter call failed: %s" % res[c["cid"]])
@@ -117,6 +128,14 @@ def run(chk, tier, seed):
         obs.append('[k |-> "ord", x |-> %s, y |-> %s, p |-> %s, q |-> %s]' % (inst_tla(split(x)), inst_tla(split(y)),
                                                                              pv_tla(p), pv_tla(q)))
         meta.append(("order", (x, y), (outs[2 * k], outs[2 * k + 1])))
+    outs = res["ordw"]["out"]
+    for k, (x, y) in enumerate(wpairs):
+        p, q = fields(outs[2 * k]), fields(outs[2 * k + 1])
+        if p is None or q is None:
+            continue
+        obs.append('[k |-> "ordw", x |-> %s, y |-> %s, p |-> %s, q |-> %s]' % (inst_tla(split(x)), inst_tla(split(y)),
+                                                                              pv_tla(p), pv_tla(q)))
+        meta.append(("order", (x, y), (outs[2 * k], outs[2 * k + 1])))
     # TLC validates every observation
     idx = list(range(len(obs)))
     nsh = max(1, min(10, (len(obs) + 9999) // 10000))
@@ -151,12 +170,15 @@ def run(chk, tier, seed):
                    "instants in 1970..2100; one observation = one call of a converter (or a round trip / ordered pair); "
                    "non-trivial = distinct argument with a non-zero fractional second" % (
                        len(GRID_DAYS), len(GRID_SECS), len(GRID_US)),
-           "grid_instants": len(grid), "random_instants": len(rand), "mismatches": nbad,
+           "grid_instants": len(grid), "random_instants": len(rand), "nanosecond_instants": len(subus),
+           "nanosecond_ordered_pairs": len(wpairs), "mismatches": nbad,
            "spec_self_check_states": self_r.distinct, "exhaustive": False,
            "explanation": "TLC is the exact-arithmetic oracle of a transcribed pure function; there is no interleaving to "
                           "explore (DESIGN section 8)"}
     return cov, ["instants split into limbs by the harness (divmod)", "PV strings parsed by a regular expression",
-                 "rounding of sub-microsecond input is not judged (the property quantifies over microsecond precision)"]
+                 "an instant with a sub-microsecond part (nanosecond OTel time) may be truncated or rounded to the next "
+                 "microsecond - either is accepted - but the result must be one of the two and the order of two such "
+                 "instants must never be reversed"]
 
 
 def PvToNsPy(p):
